@@ -87,6 +87,8 @@ NOTES = {
     "C18_e": "depended on the defect repaired by fix 8eac7fb (its demo reaches Boss.error() during closing through the "
              "`assert self._key` failure): on the repaired tree the demo no longer fails with the patch and no schedule of the "
              "environment reaches the changed row — not expected to be caught.",
+    "C03_g": "needs autobahn's Disconnected to escape from _tx into Boss.S_send; fix 335dc48 (found through this seed's scenario) "
+             "removes that exception, so the reordered counter bump is unobservable on the repaired tree — not expected to be caught.",
     "C04_a": "transit replay acceptance: caught by C06 (the channel property C04 builds on).",
 }
 
